@@ -840,7 +840,7 @@ func (m *Dense) RankOne(a Matrix, alpha float64, x, y Vector) {
 func (m *Dense) Outer(alpha float64, x, y Vector) {
 	r, c := x.Len(), y.Len()
 
-	m.reuseAsZeroed(r, c)
+	m.reuseAsNonZeroed(r, c)
 
 	var xmat, ymat blas64.Vector
 	fast := true
